@@ -495,12 +495,55 @@ def funcs_case(case):
     return diffs, "ok:funcs=%d" % case["n"]
 
 
+ASSIGN_BODIES = {
+    "set": ".set .Lmagic, 42\nmovb $1, %bl\n",
+    "equals": ".Lmask = 7\nmovb $2, %bl\n",
+    "set+label": ".set .Lmagic, 42\n.Lhere:\nmovb $3, %bl\nje .Lhere\n",
+}
+
+
+def assign_case(case):
+    """the same patch with a temporary-name assignment (.set / =) inserted at n sites of one rewrite"""
+    import gtirb
+    from gtirb_test_helpers import add_code_block, add_edge, add_function, add_proxy_block, add_text_section, create_test_module
+
+    from gtirb_rewriting import Constraints, Patch, RewritingContext
+
+    ir, m = create_test_module(gtirb.Module.FileFormat.ELF, gtirb.Module.ISA.X64)
+    _, bi = add_text_section(m, 0x1000)
+    blocks = [add_code_block(bi, b"\x90\x90") for _ in range(3)]
+    last = add_code_block(bi, b"\xc3")
+    for a, b2 in zip(blocks + [last], (blocks + [last])[1:]):
+        add_edge(ir.cfg, a, b2, gtirb.Edge.Type.Fallthrough)
+    add_edge(ir.cfg, last, add_proxy_block(m), gtirb.Edge.Type.Return)
+    ctx = RewritingContext(m, [])
+    body = ASSIGN_BODIES[case["body"]]
+    try:
+        for i in range(case["n"]):
+            ctx.insert_at(blocks[i % 3], (i // 3) % 2, Patch.from_function(lambda c, body=body: body, Constraints()))
+        ctx.apply()
+    except Exception as e:
+        return [D("assign-exception", r_exc=type(e).__name__, r_body=case["body"], r_copies="one" if case["n"] == 1 else "several", msg=str(e)[:120])], "raised"
+    diffs = []
+    names = [s.name for s in m.symbols]
+    dup = sorted({n for n in names if names.count(n) > 1})
+    if dup:
+        diffs.append(D("assign-duplicate-symbol-name", r_body=case["body"], names=dup))
+    raw = sorted(n for n in names if n in (".Lmagic", ".Lmask", ".Lhere"))
+    if raw:
+        diffs.append(D("assign-temporary-name-without-suffix", r_body=case["body"], names=raw))
+    return diffs, "ok:assign=%d" % case["n"]
+
+
 def funcs_cases(tier):
     out = []
     for body in FUNC_BODIES:
         for n in (1, 2, 3):
             for ins in (0, 1, 2):
                 out.append({"fam": "funcs", "body": body, "n": n, "inserts": ins})
+    for body in ASSIGN_BODIES:
+        for n in (1, 2, 3, 4):
+            out.append({"fam": "assign", "body": body, "n": n})
     return out
 
 
@@ -668,6 +711,12 @@ def run_task(task):
         return res
     if fam == "funcs":
         for case in funcs_cases(task["tier"]):
+            if case["fam"] == "assign":
+                diffs, outcome = assign_case(case)
+                res.case(("assign", case["body"], case["n"]), nontrivial=case["n"] > 1, outcome=outcome)
+                if diffs:
+                    res.bad(case, diffs)
+                continue
             diffs, outcome = funcs_case(case)
             res.case(("funcs", case["body"], case["n"], case["inserts"]), nontrivial=case["n"] + case["inserts"] > 1, outcome=outcome)
             if diffs:
@@ -720,6 +769,8 @@ def replay(case):
         return copies_case(case)[0]
     if fam == "funcs":
         return funcs_case(case)[0]
+    if fam == "assign":
+        return assign_case(case)[0]
     if fam == "chunk":
         module, mod_syms = T.make_module(DIALECT, FMT)
         voc, implicit = CHUNK_FAMILIES[case["family"]]
